@@ -60,17 +60,22 @@ Theorem C01_bits_independent : forall ws vs, length vs = length ws -> vals_ok (c
 Proof. exact bits_independent. Qed.
 Print Assumptions C01_bits_independent.
 
+(* [all_msgs] = [registry] (the classes translated in this run: every theorem above is about them)
+   ++ [registry_untranslated] (classes whose layout the translator could not express in this run:
+   no codec theorem is claimed for them, harness/c01.py requires the implementation oracle to pass
+   for each and lists them in the evidence; on the committed tree the list is empty).
+   Pairing and completeness are about ALL registered classes. *)
 (* every request has exactly one response counterpart: same command and group
    extension, network function plus one; ids and names unique; Req/Rsp suffix matches
    the network function's parity *)
-Theorem C01_pairing : forall m, In m registry ->
-  (is_req m = true -> length (filter (rsp_of m) registry) = 1%nat) /\
-  length (filter (same_id m) registry) = 1%nat /\ name_parity_ok m = true.
+Theorem C01_pairing : forall m, In m all_msgs ->
+  (is_req m = true -> length (filter (rsp_of m) all_msgs) = 1%nat) /\
+  length (filter (same_id m) all_msgs) = 1%nat /\ name_parity_ok m = true.
 Proof. exact pairing_in. Qed.
 Print Assumptions C01_pairing.
 
 (* the live registry holds as many classes as the source text registers *)
-Theorem C01_registry_complete : length registry = ast_class_count.
+Theorem C01_registry_complete : length all_msgs = ast_class_count.
 Proof. exact registry_complete. Qed.
 Print Assumptions C01_registry_complete.
 
